@@ -6,7 +6,7 @@ use duckscript::runner;
 use duckscript::types::runtime::Context;
 use serde_json::{json, Value};
 
-const PIECES: [&str; 12] = ["a", "b", "B", "é", "日", " ", "  ", "\t", "ab", "-", ",", "aa"];
+const PIECES: [&str; 16] = ["a", "b", "B", "é", "日", " ", "  ", "\t", "ab", "-", ",", "aa", "É", "À", "Σ", "ß"];
 // includes values that differ by less than any "tolerance" a comparison might be tempted to use
 const NUMS: [&str; 30] = ["0", "1", "-1", "2", "10", "9", "16777216", "16777217", "1700000001000", "1700000000000", "-100000000", "-100000001",
     "0.3", "0.300000001", "1e3", "1000", "-0", "007", "3.0", "3", "x", "",
@@ -29,7 +29,7 @@ pub fn gen(r: &mut Rng) -> Value {
             }
             json!({"kind": "calc", "terms": terms})
         }
-        2 => json!({"kind": "range", "a": r.below(7) as i64 - 2, "b": r.below(9) as i64 - 2}),
+        2 => if r.chance(1, 3) { let base = if r.chance(1, 2) { 2 } else { 10 }; json!({"kind": "pow", "base": base, "exp": 15 + r.below(60)}) } else { json!({"kind": "range", "a": r.below(7) as i64 - 2, "b": r.below(9) as i64 - 2}) },
         3 => {
             let (n, m) = (r.below(5), 1 + r.below(2));
             json!({"kind": "split", "text": mk(r, n), "sep": mk(r, m)})
@@ -64,6 +64,18 @@ pub fn run(input: &Value) -> Option<Value> {
             if get("lt") != want(lt) || get("gt") != want(gt) || get("lt2") != want(gt) || get("gt2") != want(lt) {
                 return Some(json!({"script": script, "what": "less_than / greater_than disagree with numeric order (or with each other)", "model": {"lt": lt, "gt": gt},
                     "real": {"lt": get("lt"), "gt": get("gt"), "lt_swapped": get("lt2"), "gt_swapped": get("gt2")}}));
+            }
+            None
+        }
+        "pow" => {
+            // powers are computed in floating point and printed the way a float is printed, however large
+            let (b, e) = (input["base"].as_u64()?, input["exp"].as_u64()?);
+            let want = (b as f64).powf(e as f64).to_string();
+            let script = format!("out = calc {} ^ {}", b, e);
+            let ctx = match run_script(&script) { Ok(c) => c, Err(e) => return Some(json!({"script": script, "error": e})) };
+            let got = ctx.variables.get("out").cloned();
+            if got != Some(want.clone()) {
+                return Some(json!({"script": script, "what": "calc differs from ordinary arithmetic on a large power", "model": want, "real": got}));
             }
             None
         }
